@@ -2,6 +2,8 @@ import OpenHTF.Driver.C20
 import OpenHTF.Driver.C16
 import OpenHTF.Driver.C13
 import OpenHTF.Driver.C07
+import OpenHTF.Driver.Exec
+import OpenHTF.Driver.C05
 open OpenHTF.Driver
 
 def stripNl (s : String) : String :=
@@ -13,6 +15,8 @@ def dispatch (line : String) : String :=
   | "C16" :: ts => C16.handle ts
   | "C13" :: ts => C13.handle ts
   | "C07" :: ts => C07.handle ts
+  | "EX" :: ts => ExecIO.handleEX ts
+  | "C05" :: ts => C05.handle ts
   | _ => reply false false "unknown-property"
 
 partial def loop (i o : IO.FS.Stream) (acc : Array String) (n : Nat) : IO Unit := do
